@@ -22,7 +22,8 @@ WIRE_BASE = ["ok", "ctimeout", "cerror", "tls", "http429", "http502", "http503",
              "html502", "html503", "html504", "text503", "empty502",
              # JSON error bodies of other shapes than the usual one: A = empty root_cause (search_phase_execution_exception, "all shards failed"),
              # B = "error" is a plain string (REST layer, proxies), C = no "error" member, D = a JSON array
-             "jsnA503", "jsnB503", "jsnC502", "jsnD504", "jsnA500", "jsnB400"]
+             # E = "error" is an object without "type", F = "error" is a list (both reach guarded() as an ApiError whose error is no string)
+             "jsnA503", "jsnB503", "jsnC502", "jsnD504", "jsnA500", "jsnB400", "jsnE503", "jsnF429", "jsnE500", "jsnF400"]
 WIRE_BULK = ["items429", "items503", "items429+201", "items201+503", "items400", "items429+400", "items400+429", "items502+504", "items409+201"]
 
 ERRORS = {
@@ -108,6 +109,8 @@ class ScriptedNode(elastic_transport.BaseNode):
                 "B": {"error": f"{reason} (plain text error)", "status": status},
                 "C": {"message": reason, "ok": False},
                 "D": [{"error": {"type": etype, "reason": reason}}],
+                "E": {"error": {"reason": reason, "caused_by": {"reason": "no type anywhere"}}, "status": status},
+                "F": {"error": [reason, {"reason": "second entry"}], "status": status},
             }[kind[3]]
             return self._resp(status, b"" if head else json.dumps(payload).encode())
         if kind.startswith("html"):
@@ -172,7 +175,7 @@ class Wire:
 
     def transient_kinds(self, target):
         """Kinds that are (mostly) transient faults in the statement's terms; only used to steer the generator."""
-        t = ["ctimeout", "cerror", "tls", "http429", "http502", "http503", "http504", "html502", "html503", "html504", "text503", "empty502", "jsnA503", "jsnB503", "jsnC502", "jsnD504"]
+        t = ["ctimeout", "cerror", "tls", "http429", "http502", "http503", "http504", "html502", "html503", "html504", "text503", "empty502", "jsnA503", "jsnB503", "jsnC502", "jsnD504", "jsnE503", "jsnF429"]
         if target in ("bulk_index", "index"):
             t += ["items429", "items503", "items429+201", "items502+504"]
         return t
@@ -258,7 +261,7 @@ class Wire:
             want = None
             if kind in ("ctimeout", "cerror", "tls"):
                 want = "transient"
-            elif kind[:4] in ("http", "html", "text", "jsnA", "jsnB", "jsnC", "jsnD") or kind.startswith("empty"):
+            elif kind[:4] in ("http", "html", "text", "jsnA", "jsnB", "jsnC", "jsnD", "jsnE", "jsnF") or kind.startswith("empty"):
                 status = int(kind[4:] if not kind.startswith("empty") else kind[5:])
                 if status in c17.RETRYABLE_STATUS:
                     want = "transient"
